@@ -47,6 +47,8 @@ GW_EXTRA = {
 A.GW.update(GW_EXTRA)
 ALL_GW = ["none", "0.3", "0.8", "1.5", "2.5", "6", "50", "rising_c", "rising_v", "falling_v", "falling_c", "two_v", "four_c", "four_v", "late_v", "late_c", "early_v", "early_c", "all_before_c", "0", "touch0_v", "touch0_c", "0.05", "int_first_c", "int_first_v", "int_all_c", "int_last_c", "unsorted_v", "unsorted4_v"]
 
+A.SOILS.setdefault("fc4dec", {"type": "custom", "layers": [[4.0, 0.1325, 0.2875, 0.4315, 420.0, 100]]})   # module level: replays need it too
+
 
 def scenarios(tier, seed=0):
     soils = ["SandyLoam", "Clay"] if tier == "quick" else ["SandyLoam", "Clay", "Paddy", "custom3"]
@@ -70,6 +72,11 @@ def scenarios(tier, seed=0):
     # far table == no table (pairs of executions)
     for soil, dz, ck, irr, word in itertools.product(soils, dzs, crops, irrs, words[:2]):
         c = A._b(soil=soil, dz=dz, gw="50", crop=ck, irr=irr, word=word, win="w2", iwc="Pct50")
+        yield {"kind": "far", "config": c}
+    # hydraulic values with more than three decimals (calibrated custom layers): nothing may round them on one side of the pair only
+
+    for dz, word, iwc in itertools.product(dzs, ["wet", "normal"], ["Pct50", "WP", "SAT", "FC"]):
+        c = A._b(soil="fc4dec", dz=dz, gw="50", crop="maize.2", irr="none", word=word, win="w2", iwc=iwc)
         yield {"kind": "far", "config": c}
     if tier != "quick":
         for gw in ALL_GW:
